@@ -47,6 +47,9 @@ def build(desc, data=None):
             n *= k
         data = (torch.arange(n, dtype=torch.float32).reshape(shape) % 251.0 + 1.0) / 8.0 + float(desc.get("grids", [0])[0] if desc.get("grids") else 0)
     k = desc["kind"]
+    if desc.get("rg"):
+        # data that requires grad: DataTensor.__new__ then keeps the autograd graph (data.as_subclass(cls), a non-leaf alias)
+        data = data.clone().requires_grad_(True)
     if k == "P":
         return data
     if k in ("B", "F"):
@@ -81,6 +84,8 @@ def describe(x):
 
 def rebuild(x, data):
     """same type / grids / axes as x with other data (constructors do not check the number of grids)"""
+    if isinstance(x, Tensor) and x.requires_grad and data.is_floating_point():
+        data = data.clone().requires_grad_(True)
     if type(x) is Tensor or not isinstance(x, Tensor):
         return data
     if isinstance(x, FlowFields):
@@ -262,7 +267,7 @@ def apply(op, xs):
         return xs[0].append(xs[1])
     if k == "to_batch":
         return x.batch()
-    if k == "as_flows":      # search only: FlowFields(batch) constructor
+    if k == "as_flows":      # FlowFields(batch) constructor
         return FlowFields(x)
     if k == "sample_grid":   # search only
         sp = x.shape[2:]
@@ -437,6 +442,9 @@ def oracle(op, operands, obs):
             and operands[0].shape[0] == 0:
         name = "channel-change-of-empty-batch"
     key = lambda kind: f"C19:{site}:{name}:{kind}"  # noqa
+    if "error" in obs and "view of a leaf Variable" in obs.get("msg", ""):
+        # ImageBatch.__iter__ squeezes the narrowed view in place: one root cause for __iter__ / from_images / collate of both classes
+        key = lambda kind: f"C19:ImageBatch.__iter__:batch-that-requires-grad:{kind}"  # noqa
     out = []
     descs_in = [describe(x) for x in operands]
     typed_in = [d["kind"] in ("B", "F", "I", "FI") for d in descs_in]
@@ -444,6 +452,9 @@ def oracle(op, operands, obs):
         flow_axes = {d.get("axes") for d in descs_in if d["kind"] in ("F", "FI")}
         if obs["exc"] == "ValueError" and "mismatching axes" in obs["msg"] and len(flow_axes) > 1:
             return out      # combining flow fields with different axes is refused on purpose
+        if op["op"] == "as_flows" and ((obs["exc"] == "ValueError" and "nchannels" in obs["msg"])
+                                       or (obs["exc"] == "IndexError" and operands[0].shape[0] == 0)):
+            return out      # the constructor refuses data whose channels are not vector components (and has no default axes without a grid)
         if any(typed_in) and obs.get("plain_ok") and op["op"] not in ("grid_sample",):
             out.append((key("raises-" + obs["exc"]), f"raises {obs['exc']} ({obs['msg'][:80]}) although the operation succeeds on the plain data"))
         elif op["op"] in ("copy", "iter_build", "iter_pick", "append", "to_batch", "narrow_method", "sample_grid", "as_flows") and obs["exc"] not in ("IndexError", "RuntimeError"):
